@@ -317,12 +317,11 @@ package main
 //@   props C02 C03 C06
 //@   ensures r-pop: msg.request == nil ==> popvias == old(popvias) ++ seq1(msg)
 //@   ensures r-at-most-one: msg.request == nil ==> len(smMsg) <= len(old(smMsg)) + 1 && len(smMsg) >= len(old(smMsg)) && stb == old(stb)
-//@   ensures r-dest: msg.request == nil && len(smMsg) == len(old(smMsg)) + 1 ==> smMsg[len(old(smMsg))] == msg
-//@        && firstIdx(msg.headers, "Via") >= 0 && isType(msg.headers[firstIdx(msg.headers, "Via")].value, "*Via")
-//@        && len(asRef(msg.headers[firstIdx(msg.headers, "Via")].value, "*Via").params) >= 1
-//@        && smHost[len(old(smHost))] == hopHost(asRef(msg.headers[firstIdx(msg.headers, "Via")].value, "*Via").params[0])
-//@        && smPort[len(old(smPort))] == hopPort(asRef(msg.headers[firstIdx(msg.headers, "Via")].value, "*Via").params[0])
-//@        && smTransport[len(old(smTransport))] == asRef(msg.headers[firstIdx(msg.headers, "Via")].value, "*Via").params[0].Transport
+//@   ensures r-dest-msg: msg.request == nil && len(smMsg) == len(old(smMsg)) + 1 ==> smMsg[len(old(smMsg))] == msg
+//@   ensures r-dest-decoded: msg.request == nil && len(smMsg) == len(old(smMsg)) + 1 ==> firstIdx(msg.headers, "Via") >= 0 && isType(msg.headers[firstIdx(msg.headers, "Via")].value, "*Via") && len(asRef(msg.headers[firstIdx(msg.headers, "Via")].value, "*Via").params) >= 1
+//@   ensures r-dest-host: msg.request == nil && len(smMsg) == len(old(smMsg)) + 1 ==> smHost[len(old(smHost))] == hopHost(asRef(msg.headers[firstIdx(msg.headers, "Via")].value, "*Via").params[0])
+//@   ensures r-dest-port: msg.request == nil && len(smMsg) == len(old(smMsg)) + 1 ==> smPort[len(old(smPort))] == hopPort(asRef(msg.headers[firstIdx(msg.headers, "Via")].value, "*Via").params[0])
+//@   ensures r-dest-transport: msg.request == nil && len(smMsg) == len(old(smMsg)) + 1 ==> smTransport[len(old(smTransport))] == asRef(msg.headers[firstIdx(msg.headers, "Via")].value, "*Via").params[0].Transport
 //@   ensures r-hop-implies-sent: msg.request == nil && firstIdx(msg.headers, "Via") >= 0 && isType(msg.headers[firstIdx(msg.headers, "Via")].value, "*Via")
 //@        && len(asRef(msg.headers[firstIdx(msg.headers, "Via")].value, "*Via").params) >= 1 ==> len(smMsg) == len(old(smMsg)) + 1
 //@   ensures q-no-pop: msg.request != nil ==> popvias == old(popvias)
